@@ -34,9 +34,47 @@ func init() {
 	Engines["C01"] = chainEngine("C01", &sim.ChainCfg{Diff: true, Model: true},
 		func(tier string) *sim.GenParams {
 			return &sim.GenParams{Mix: sim.OpMix{"tx": 6, "kvtx": 5, "mine": 5, "deliver": 4, "walk": 4, "reopen": 1, "bg": 1, "clock": 1}, MaxSteps: steps(tier, 24, 40), MaxNodes: 3, Windows: []int{0}, MapOrders: true, SmallCache: true, Defer: true}
-		},
-		"seeded plans of tx / kv-contract tx / mine / deliver / walk / reopen steps on 1-3 nodes; non-trivial = a run in which at least one walk undid a block or crossed a fork and a fresh replay was compared; distinct = distinct event-log digests",
+		}, "",
 		func(st *sim.RunStats) bool {
 			return st.Probes["walk-undo"] > 0 && st.Probes["fresh-replay-compared"] > 0
 		})
+
+	Engines["C02"] = chainEngine("C02", &sim.ChainCfg{Conserve: true},
+		func(tier string) *sim.GenParams {
+			return &sim.GenParams{Mix: sim.OpMix{"tx": 8, "kvtx": 3, "badtx": 5, "mine": 5, "deliver": 4, "walk": 4, "reopen": 1, "badblock": 2, "clock": 1}, MaxSteps: steps(tier, 24, 40), MaxNodes: 3, Windows: []int{0, 2}, MapOrders: true, SmallCache: true, Defer: true}
+		}, "", func(st *sim.RunStats) bool { return st.Probes["tx-admitted"] > 1 && st.Probes["blocks-with-txs"] > 0 })
+
+	Engines["C03"] = chainEngine("C03", &sim.ChainCfg{Admit: true, PoolOrder: true, Conserve: true},
+		func(tier string) *sim.GenParams {
+			return &sim.GenParams{Mix: sim.OpMix{"tx": 6, "kvtx": 6, "respend": 5, "mine": 5, "deliver": 5, "walk": 3, "reopen": 1, "bg": 1, "clock": 1}, MaxSteps: steps(tier, 24, 40), MaxNodes: 3, Windows: []int{0}, MapOrders: true, SmallCache: true, Defer: true}
+		}, "", func(st *sim.RunStats) bool { return st.Probes["tx-refused"] > 0 && st.Probes["tx-admitted"] > 1 })
+
+	Engines["C04"] = chainEngine("C04", &sim.ChainCfg{LedgerM: true},
+		func(tier string) *sim.GenParams {
+			return &sim.GenParams{Mix: sim.OpMix{"tx": 4, "mine": 6, "deliver": 8, "walk": 2, "reopen": 1, "truncate": 2, "badblock": 2}, MaxSteps: steps(tier, 26, 44), MaxNodes: 3, Windows: []int{0}, MapOrders: true, SmallCache: true}
+		}, "", func(st *sim.RunStats) bool { return st.Probes["trunk-switch"] > 0 || st.Probes["truncate"] > 0 })
+
+	Engines["C05"] = chainEngine("C05", &sim.ChainCfg{Reopen: true, NoTrace: true},
+		func(tier string) *sim.GenParams {
+			return &sim.GenParams{Mix: sim.OpMix{"tx": 6, "kvtx": 4, "badtx": 4, "respend": 2, "mine": 5, "deliver": 5, "walk": 4, "badblock": 3, "truncate": 1, "clock": 1}, MaxSteps: steps(tier, 20, 36), MaxNodes: 2, Windows: []int{0, 2}, MapOrders: true, SmallCache: true, StorFaults: true}
+		}, "", func(st *sim.RunStats) bool {
+			return st.Probes["failed-op-checked"] > 0 && st.Probes["reopen-compared"] > 3
+		})
+
+	Engines["C13"] = chainEngine("C13", &sim.ChainCfg{PoolOrder: true, Diff: true, DiffEveryN: 1},
+		func(tier string) *sim.GenParams {
+			return &sim.GenParams{Mix: sim.OpMix{"tx": 8, "kvtx": 8, "mine": 5, "deliver": 3, "clock": 1}, MaxSteps: steps(tier, 22, 40), MaxNodes: 2, Windows: []int{0}, MapOrders: true, SmallCache: true}
+		}, "", func(st *sim.RunStats) bool {
+			return st.Probes["blocks-with-txs"] > 0 && st.Probes["fresh-replay-compared"] > 0
+		})
+
+	Engines["C17"] = chainEngine("C17", &sim.ChainCfg{Irr: true},
+		func(tier string) *sim.GenParams {
+			return &sim.GenParams{Mix: sim.OpMix{"tx": 3, "mine": 8, "deliver": 6, "walk": 7, "reopen": 2, "truncate": 1}, MaxSteps: steps(tier, 28, 46), MaxNodes: 3, Windows: []int{0, 1, 2, 3, 5}, MapOrders: true, SmallCache: true}
+		}, "", func(st *sim.RunStats) bool { return st.Probes["walk-failed"] > 0 || st.Probes["walk-undo"] > 0 })
+
+	Engines["C18"] = chainEngine("C18", &sim.ChainCfg{Snap: true},
+		func(tier string) *sim.GenParams {
+			return &sim.GenParams{Mix: sim.OpMix{"kvtx": 10, "tx": 2, "mine": 6, "deliver": 4, "walk": 2, "reopen": 1}, MaxSteps: steps(tier, 24, 40), MaxNodes: 2, Windows: []int{0}, MapOrders: true, SmallCache: true, KV: true}
+		}, "", func(st *sim.RunStats) bool { return st.Probes["snapshot-below-tip"] > 2 })
 }
